@@ -27,6 +27,7 @@ RULE = (
     "resources= restriction; 12 requests per project: kind drawn from 16 refactorings, offset an identifier start (2/3) or an "
     "arbitrary position (1/3); non-trivial = accepted request that changed >= 1 file, or a refusal; internal exceptions are "
     "bucketed by (kind, exception type, innermost rope frame); distinct by (project hash, request)"
+    "; 20 request kinds; an out-of-project package besides the module, a write to the ignored file through rope in mid-history, MoveMethod towards an out-of-project class, and one cross-project (multiproject) scenario per case with ownership / purity / locality clauses of its own"
 )
 ASSUMPTIONS = [
     "mtime_ns is part of the purity snapshot (a rewrite with identical bytes still counts as a write)",
